@@ -3,7 +3,7 @@ LOOP_SWAP = ["eventloop_unix.go", "connection_unix.go", "connection_linux.go", "
              "pkg/socket/sock_cloexec.go", "pkg/socket/fd_unix.go"]
 
 PROP = dict(
-    drivers=[dict(cmd="drv-engine", family="engine", unix_swap=LOOP_SWAP, args=["-focus", "control"])],
+    drivers=[dict(cmd="drv-engine", family="engine", netns=True, unix_swap=LOOP_SWAP, args=["-focus", "control"])],
     rule="a case is one engine life: the driver starts the REAL engine from the current tree (tcp/unix/udp, 1/2/4 loops, reactor or "
          "reuse-port, LT/ET, ticker on/off, 1-2 listeners; or a Client), and issues control calls (Validate, CountConnections, Dup, "
          "DupListener, Engine.Register with address / connection / no target / failing dial, EventLoop.Register / Enroll / Execute with "
